@@ -6,7 +6,8 @@ the case's exec log and returns 1000*k + ctx + sum(values read, 7 for a failed r
 mode bits: 1 = run() raises, 2 = worker dies (implemented by the fake process layer),
 4 = strict (let the TaskError of a failed dependency read propagate), 8 = the result is None (a legal
 value; the model carries it as NONE_CODE), 32 = run() raises iff the Lab context value is odd (a failure
-that depends on the call, not on the task), 64 = the raised exception is chained (`raise … from …`).
+that depends on the call, not on the task), 64 = the raised exception is chained (`raise … from …`), 128 = (real process backends only) the worker
+process outlives run() because a non-daemon thread is still busy.
 """
 import os
 
@@ -19,6 +20,7 @@ from labtech.types import is_task
 
 NONE_CODE = 999999   # how the model and the observation strings spell a result that is None
 MISSING = object()
+LINGER_S = 4.0
 
 EXT_HOOK = None   # callable(k): an 'external writer' acting while task k runs (another Lab on the same storage)
 EXEC_LOG = None  # path; set by the harness before a case runs (inherited by forked helpers)
@@ -64,6 +66,10 @@ def _run(self):
             import signal
             os.kill(os.getpid(), signal.SIGKILL)
         time.sleep(0.002 * ((self.k * 7) % 11))
+        if self.mode & 128:
+            # the worker process outlives run(): a non-daemon helper thread is still busy
+            import threading
+            threading.Thread(target=time.sleep, args=(LINGER_S,)).start()
     if EXT_HOOK is not None:
         EXT_HOOK(self.k)
     reads = []
